@@ -488,9 +488,18 @@ func binCase(tree *refnbt.Node, origin string) Case {
 
 // judgeTree applies O1 to one tree (no minimisation). shape is filled in by the caller.
 func judgeTree(slot int, tree *refnbt.Node, origin string) treeVerdict {
+	return judgeTreeInto(slot, tree, origin, nil)
+}
+
+// judgeTreeInto is judgeTree with the destination of the binary -> text conversion supplied by
+// the caller (the history family reuses one destination for a whole history).
+func judgeTreeInto(slot int, tree *refnbt.Node, origin string, dst *nbt.StringifiedMessage) treeVerdict {
 	doc := refnbt.Append(nil, "", tree, false)
 	payload := refnbt.AppendPayload(nil, tree)
-	var sm nbt.StringifiedMessage
+	sm := dst
+	if sm == nil {
+		sm = new(nbt.StringifiedMessage)
+	}
 	var err error
 	var viaRaw string
 	desc := func() string {
@@ -499,7 +508,7 @@ func judgeTree(slot int, tree *refnbt.Node, origin string) treeVerdict {
 	}
 	wd.Begin(slot, desc)
 	kind, frame, panicked := guardChecked(func() {
-		err = nbt.Unmarshal(doc, &sm)
+		err = nbt.Unmarshal(doc, sm)
 		viaRaw = nbt.RawMessage{Type: tree.Tag, Data: payload}.String()
 	})
 	wd.End(slot)
@@ -509,10 +518,16 @@ func judgeTree(slot int, tree *refnbt.Node, origin string) treeVerdict {
 	if err != nil {
 		return treeVerdict{class: dirBin + "/to-text-error/%s", detail: fmt.Sprintf("Unmarshal(doc, *StringifiedMessage) failed on the well-formed document %s: %v", treeStr(tree), err)}
 	}
-	text := string(sm)
+	text := string(*sm)
 	if text != viaRaw {
 		return treeVerdict{class: dirBin + "/texts-disagree/%s", text: text, detail: fmt.Sprintf("Unmarshal(*StringifiedMessage) gives %q, RawMessage.String() gives %q for %s", clipS(text, 120), clipS(viaRaw, 120), treeStr(tree))}
 	}
+	return judgeOwnText(slot, tree, text, desc)
+}
+
+// judgeOwnText is the second half of O1: text is what go-mc wrote for tree; parsed back by go-mc
+// and read by the independent NBT reader it must be the identical tree.
+func judgeOwnText(slot int, tree *refnbt.Node, text string, desc func() string) treeVerdict {
 	o := convert(slot, text, desc)
 	if o.panicked {
 		return treeVerdict{class: dirBin + "/panic-on-own-text/" + o.frame + "/" + o.kind, text: text, detail: fmt.Sprintf("%s panicked on the writer's own text %q for %s: %s in %s", o.where, clipS(text, 120), treeStr(tree), o.kind, o.frame)}
